@@ -64,25 +64,62 @@ def coq_sources():
     return sorted(res)
 
 
-def forbidden_scan():
-    """No Admitted / Axiom / ... anywhere in the development (comments are stripped first)."""
+def strip_comments(text):
+    out, depth, i = [], 0, 0
+    while i < len(text):
+        if text.startswith('(*', i):
+            depth += 1
+            i += 2
+        elif text.startswith('*)', i) and depth > 0:
+            depth -= 1
+            i += 2
+        else:
+            if depth == 0:
+                out.append(text[i])
+            i += 1
+    return ''.join(out)
+
+
+def coq_closure(pid):
+    """Source files (relative to coq/) that props/<pid>.v and extract/Extract<pid>.v transitively require."""
+    cdir = os.path.join(ROOT, 'coq')
+    srcs = coq_sources()
+    mods = {}
+    for rel in srcs:
+        parts = rel[:-2].split('/')
+        top = 'Herc' if parts[0] == 'theories' else 'HercProps'
+        mods['.'.join([top] + parts[1:])] = rel
+    def requires(rel):
+        text = strip_comments(open(os.path.join(cdir, rel)).read())
+        res = set()
+        for m in re.finditer(r'(?:From\s+([A-Za-z0-9_.]+)\s+)?Require\s+(?:Import\s+|Export\s+)?([^.]*(?:\.[A-Za-z_][^.]*)*?)\.(?:\s|$)', text):
+            prefix = m.group(1)
+            for name in m.group(2).split():
+                cands = [name] + ([prefix + '.' + name] if prefix else [])
+                for full, r in mods.items():
+                    if any(full == c or full.endswith('.' + c) for c in cands):
+                        res.add(r)
+        return res
+    todo = ['props/%s.v' % pid]
+    ex = 'extract/Extract%s.v' % pid
+    if os.path.exists(os.path.join(cdir, ex)):
+        todo.append(ex)
+    seen = set()
+    while todo:
+        r = todo.pop()
+        if r in seen:
+            continue
+        seen.add(r)
+        todo.extend(requires(r))
+    return sorted(seen)
+
+
+def forbidden_scan(pid):
+    """No Admitted / Axiom / ... in the files this property depends on (comments are stripped first)."""
     hits = []
-    for rel in coq_sources() + ['extract/' + f for f in sorted(os.listdir(os.path.join(ROOT, 'coq', 'extract'))) if f.endswith('.v')]:
-        text = open(os.path.join(ROOT, 'coq', rel)).read()
-        # strip (possibly nested) comments
-        out, depth, i = [], 0, 0
-        while i < len(text):
-            if text.startswith('(*', i):
-                depth += 1
-                i += 2
-            elif text.startswith('*)', i) and depth > 0:
-                depth -= 1
-                i += 2
-            else:
-                if depth == 0:
-                    out.append(text[i])
-                i += 1
-        for ln, line in enumerate(''.join(out).split('\n'), 1):
+    for rel in coq_closure(pid):
+        text = strip_comments(open(os.path.join(ROOT, 'coq', rel)).read())
+        for ln, line in enumerate(text.split('\n'), 1):
             if FORBIDDEN.search(line):
                 hits.append('%s: %s' % (rel, line.strip()))
     return hits
@@ -354,7 +391,7 @@ def main():
     notes = []
 
     # ---- 1. proofs
-    hits = forbidden_scan()
+    hits = forbidden_scan(pid)
     ok, theorems, assum, log = coq_props(pid)
     proof_broken = None
     if hits:
@@ -443,8 +480,8 @@ def main():
     for r in results:
         if r.get('error'):
             errors.append(r['error'])
-        ids = [f.cid for f in r['findings']]
-        cl = case_lines(r['trace'], ids[:2000]) if ids else {}
+        ids = [f.cid for f in r['findings'] if f.kind == 'PROPFAIL'][:50000] + [f.cid for f in r['findings'] if f.kind != 'PROPFAIL'][:2000]
+        cl = case_lines(r['trace'], ids) if ids else {}
         for f in r['findings']:
             f.case_line = cl.get(f.cid)
             f.streamcfg = r['stream']
